@@ -95,6 +95,12 @@ type BytePtr struct {
 
 type NilPtr struct{}
 
+// UnsafePtr is an unsafe.Pointer obtained from a typed pointer; it can only be converted back.
+type UnsafePtr struct {
+	V Value
+	T types.Type
+}
+
 // MapVal: concrete keys, insertion ordered.
 type mapEnt struct {
 	k, v Value
